@@ -1021,6 +1021,13 @@ impl Stdfs {
     pub fn mkdir_m<T: AsRef<Path>>(path: T, mode: u32) -> RvResult<PathBuf> {
         let abs = Stdfs::abs(path)?;
 
+        // Link exclusion i.e. a link even if pointing to a directory isn't a directory
+        if let Ok(meta) = fs::symlink_metadata(&abs) {
+            if !meta.is_dir() {
+                return Err(PathError::is_not_dir(abs).into());
+            }
+        }
+
         let mut path = PathBuf::new();
         for component in abs.components() {
             path.push(component);
